@@ -48,10 +48,10 @@ fn filters(tier: Tier) -> Vec<(String, Vec<Vec<f64>>)> {
 
 pub fn run(tier: Tier) -> i32 {
     let rep = Report::new("C07", tier, "model_checking");
-    rep.set_rule("SCOPE: per (rate in {8k,16k,48k,96k}) x (frame period in {40,80,240,480}): all 512 frame triples over {unvoiced, F0 in {20,55.3,123.4,440,rate/2,10(clamps to 20),30k(clamps to 20k)} Hz} followed by 20 repetitions of the last symbol; filters: none plus the listed odd-length low-pass sets (constant and changing per frame); real Vocoder with zero spectrum; oracle: pulse height^2 = linearly gliding period, stationary spacing floor/ceil(T0), unit mean power, unvoiced samples bit-equal to the reference noise run, LPF output = h*pulses + (delta-h)*noise; two vocoders (all pairs of 6 rate/period/low-pass configurations) stepped alternately on one thread produce what each produces alone; distinct = (cell, triple, filter); non-trivial = contains a voiced frame");
+    rep.set_rule("SCOPE: per (rate in {8k,16k,48k,96k}) x (frame period in {40,80,81,240,480}): all 512 frame triples over {unvoiced, F0 in {20,55.3,123.4,440,rate/2,10(clamps to 20),30k(clamps to 20k)} Hz} followed by the first two symbols in reverse order and 18 repetitions of the third; filters: none plus the listed odd-length low-pass sets (constant and changing per frame); real Vocoder with zero spectrum; oracle: pulse height^2 = linearly gliding period, stationary spacing floor/ceil(T0), unit mean power, unvoiced samples bit-equal to the reference noise run (which is the same stream for frame periods 1, 40, 81, 162, 405 and 3240), LPF output = h*pulses + (delta-h)*noise; two vocoders (all pairs of 6 rate/period/low-pass configurations) stepped alternately on one thread produce what each produces alone; distinct = (cell, triple, filter); non-trivial = contains a voiced frame");
     rep.assume("F0 values on the 7-point lattice; T0 is an exact integer for no lattice point (first inter-pulse interval after an onset is ceil(T0)-1 = floor(T0))");
     let rates = [8000usize, 16000, 48000, 96000];
-    let fps = [40usize, 80, 240, 480];
+    let fps = [40usize, 80, 81, 240, 480];
     let flt = filters(tier);
     let cells: Vec<(usize, usize)> = rates.iter().flat_map(|r| fps.iter().map(move |f| (*r, *f))).collect();
     let stat_checked = AtomicU64::new(0);
@@ -84,6 +84,26 @@ pub fn run(tier: Tier) -> i32 {
         }
         rep.note(&format!("noise_worst_autocorrelation_{}", n), json!(worst_rho));
     }
+    // the noise is one stream: how it is cut into frames must not matter (same samples for frame periods 40, 81, 162,
+    // 3240 and one single long frame)
+    {
+        let total = 3240usize;
+        let runs: Vec<(usize, Result<Vec<f64>, String>)> = [40usize, 81, 162, 3240, 1, 405].iter().map(|fp| (*fp, run_voc(16000, *fp, 0, &vec![(NODATA, vec![]); total / fp]))).collect();
+        rep.eval(runs.len() as u64);
+        if let Ok(first) = &runs[0].1 {
+            for (fp, r) in &runs[1..] {
+                rep.cmp(1);
+                match r {
+                    Ok(x) if bits_eq(x, first) => {}
+                    Ok(x) => {
+                        let at = x.iter().zip(first).position(|(a, b)| a.to_bits() != b.to_bits());
+                        rep.violation("noise-framing", format!("the unvoiced excitation depends on the frame period: {} samples at frame period {} differ from frame period 40 first at sample {:?}", x.len(), fp, at), json!({"rate": 16000, "fperiods": [40, fp], "frames": "all unvoiced"}));
+                    }
+                    Err(p) => rep.violation(format!("panic@{}", site_of(p)), p.clone(), json!({"rate": 16000, "fperiod": fp, "frames": "all unvoiced"})),
+                }
+            }
+        }
+    }
     rep.par_for(cells.len() * 64, 1, "C07 part 1", |job| {
         let (rate, fp) = cells[job / 64];
         let ab = job % 64;
@@ -100,8 +120,10 @@ pub fn run(tier: Tier) -> i32 {
             }
         };
         for c in 0..8 {
-            let mut seq = vec![a, b, c];
-            seq.extend(vec![c; 20]);
+            // the triple, then its first two symbols again in reverse (so that every pair also occurs *after* the third
+            // symbol: voiced-unvoiced-voiced with any two pitches around the gap), then the stationary tail
+            let mut seq = vec![a, b, c, b, a];
+            seq.extend(vec![c; 18]);
             let rp = |what: &str| json!({"rate": rate, "fperiod": fp, "frame_f0_hz": seq.iter().map(|&i| if i == 0 { json!("unvoiced") } else { json!(f0s[i]) }).collect::<Vec<_>>(), "filter": what});
             let frames0: Vec<(f64, Vec<f64>)> = seq.iter().map(|&i| (sym(i), vec![])).collect();
             rep.eval(1);
